@@ -8,7 +8,8 @@ the XDS demultiplexers, read from the *current* source text of /repo.
   src/xds_demux.c   store guard `sp->count > K`; does the "unknown class or subclass" branch
                     `goto discard` (which resets the *interrupted* packet) or leave it alone?
   src/caption.c     store guard `sp->count > K`; does the parity-error branch of xds_separator
-                    clear cc->curr_sp?
+                    clear cc->curr_sp?  does xds_decoder compare the new network id with the
+                    current one before it resets the decoder?
 
 Output lean/ZvbiModel/Generated/XdsFacts.lean is written only when it changed.  The harness op
 `extents` prints the same numbers from the compiled code and checks/C09.py compares them; the two
@@ -120,6 +121,10 @@ def main():
     s_guard = cexpr(m.group(2)) - (1 if m.group(1) == ">=" else 0)
     err = block_after(f, need(re.search(r"if\s*\(\s*\(\s*c1\s*\|\s*c2\s*\)\s*<\s*0\s*\)", f), "parity branch").start())
     s_err_clears = re.search(r"cc->curr_sp\s*=\s*NULL", err) is not None
+    # xds_decoder, network name announced: is the new id compared with the current one before
+    # vbi_chsw_reset / the NETWORK event?
+    f = function_body(rd("caption.c"), "xds_decoder")
+    s_nuid_compared = re.search(r"if\s*\(\s*sum\s*!=\s*n->nuid\s*\)", f) is not None
 
     text = """-- generated by translate/gen_xds.py from src/xds_demux.[ch], src/cc.h, src/caption.c - do not edit
 namespace Zvbi.Gen.Xds
@@ -153,13 +158,17 @@ def sepStoreGuard : Nat := %d
 def sepChksumBeforeBuffer : Bool := %s
 /-- the parity-error branch of `xds_separator` clears `cc->curr_sp` -/
 def sepErrClearsCurr : Bool := %s
+/-- `xds_decoder`, network name repeated: `vbi_chsw_reset` (which flushes every XDS buffer) and the
+    NETWORK event happen only `if (sum != n->nuid)` -/
+def sepNuidCompared : Bool := %s
 
 end Zvbi.Gen.Xds
 """ % (d_buf, d_classes, d_sub, d_pkt, d_maxcls, d_guard, d_remap_from, d_remap_add,
        "true" if d_reject_keeps else "false",
        s_buf, s_classes, s_sub, s_guard,
        "true" if s_fields[-2:] == ["chksum", "buffer"] else "false",
-       "true" if s_err_clears else "false")
+       "true" if s_err_clears else "false",
+       "true" if s_nuid_compared else "false")
     old = open(OUT).read() if os.path.exists(OUT) else None
     if old != text:
         os.makedirs(os.path.dirname(OUT), exist_ok=True)
